@@ -2,6 +2,7 @@
 import os, re
 import vlib
 from vlib import Broken
+from props import c15_translate
 
 ID = "C15"
 LEVEL = "proof"
@@ -48,6 +49,9 @@ OBLIGATIONS = [NS + t for t in [
     "hashCombine_not_injective_left", "hashCombine_keeps_low_difference", "hash_fold_detects",
     "tensor_element_corruption_detected", "tensor_bit_flip_detected", "tensor_single_bit_flip_accepted",
     "tensor_payload_corruption_hash_hypothesis_necessary",
+    # round 5: field layouts of every read / write member function regenerated from the source (Gen/CodecLayout.lean)
+    "Layout.model_read_layout_is_generated", "Layout.model_write_layout_is_generated", "Layout.model_typedefs_are_generated",
+    "Layout.read_layout_eq_write_layout", "Layout.model_wire_is_generated", "Layout.layout_bases_closed",
 ]]
 TRUSTED = [
     "Lean 4.33.0 kernel (core library only for this property; no Mathlib import)",
@@ -57,6 +61,10 @@ TRUSTED = [
     "correspondence run (decode + re-encode + field dump, every truncation offset, single-byte corruptions; exact comparison)",
     "NanoVerif/Gen/CodecConsts.lean regenerated on every run from CMakeLists.txt / cmake/version.h.in / include/nano/core/hash.h "
     "(library version, hash_version, the expression of hash_combine) by the 60-line expression translator in tools/props/c15.py",
+    "NanoVerif/Gen/CodecLayout.lean regenerated on every run by tools/props/c15_translate.py (regular expressions + balanced-parenthesis "
+    "argument splitting over the read / write member functions of 10 classes and dtree_node_t, member declarations of the class "
+    "headers, 16 `using` aliases); the map (cast, declared type) -> wire kind `wireOf` and the table `modelWire` in "
+    "Proofs/CodecLayoutGen.lean are hand-written readings of Model/Wire.lean's seq structure",
     "tools/props/c15.py generator + oracle (own python tensor/parameter/configurable encoders for the malformed-stream corpus); "
     "harness/c15.cpp; g++/libstdc++ iostreams/Eigen",
 ]
@@ -200,6 +208,8 @@ def translate():
         f"def hashCombine ({a} {b} : UInt64) : UInt64 :=\n  {lean}\n\n"
         "end NanoVerif.Gen.CodecConsts\n")
     vlib.write_if_changed(os.path.join(vlib.LEAN, "NanoVerif", "Gen", "CodecConsts.lean"), text)
+    # Gen/CodecLayout.lean: field order / casts / declared types of every read and write member function
+    c15_translate.translate()
 
 
 # ---------------------------------------------------------------------------------------------------------
